@@ -58,7 +58,7 @@ func (ex *exec) spawn(fr *frame, instr *ssa.Go, fn value, args []value) {
 }
 
 func (ex *exec) startThread(i *interpreter, fn value, args []value) *thread {
-	t := &thread{id: len(ex.threads), wake: make(chan int, 1)}
+	t := &thread{id: len(ex.threads), wake: make(chan int, 1), seenSeq: ex.visibleSeq}
 	switch f := fn.(type) {
 	case *ssa.Function:
 		t.name = f.String()
@@ -320,8 +320,16 @@ func (ex *exec) killThreads() {
 
 // ---- channels ----
 
+func (ex *exec) noteWriteOp() {
+	if ex.threaded() {
+		ex.visibleSeq++
+		ex.cur.dirty = true
+	}
+}
+
 func (ex *exec) chanSend(ch *vchan, v value) {
-	ex.yield()
+	ex.yieldK(false, true)
+	defer ex.noteWriteOp()
 	if ch == nil {
 		ex.block(func() bool { return false }, "send on nil channel")
 	}
@@ -343,7 +351,7 @@ func (ex *exec) chanSend(ch *vchan, v value) {
 }
 
 func (ex *exec) chanRecv(ch *vchan) (value, bool) {
-	ex.yield()
+	ex.yieldK(false, true)
 	if ch == nil {
 		ex.block(func() bool { return false }, "receive from nil channel")
 	}
@@ -368,7 +376,7 @@ func (ex *exec) chanClose(ch *vchan) {
 }
 
 func (ex *exec) doSelect(fr *frame, instr *ssa.Select) value {
-	ex.yield()
+	ex.yieldK(false, true)
 	type cs struct {
 		ch   *vchan
 		send value
@@ -432,6 +440,7 @@ func (ex *exec) doSelect(fr *frame, instr *ssa.Select) value {
 				panic("send on closed channel")
 			}
 			c.ch.buf = append(c.ch.buf, c.send)
+			ex.noteWriteOp()
 		}
 	}
 	res := tuple{chosen, recvOk}
@@ -496,6 +505,7 @@ func (ex *exec) rlock(p *value, what string) {
 }
 
 func (ex *exec) runlock(p *value) {
+	// a reader publishes nothing: releasing a read lock is not a state change
 	ex.yieldK(false, ex.cfg.bounds["preempt_sync"] == 1)
 	m := ex.mutex(p)
 	if m.r <= 0 {
